@@ -71,6 +71,7 @@ type GhostDecl struct {
 	Name  string
 	Sort  string
 	Mutex string
+	Init  string // "" arbitrary; "empty": all-zero/all-false; otherwise an expression
 }
 
 type TypeContract struct {
@@ -341,6 +342,9 @@ func (db *ContractDB) parseLines(p *packages.Package, file string, lines []srcLi
 			if strings.HasPrefix(head, "recv ") {
 				ac.Callee = "recv:" + strings.TrimSpace(strings.TrimPrefix(head, "recv "))
 			}
+			if strings.HasPrefix(head, "mapstore ") {
+				ac.Callee = "mapstore:" + strings.TrimSpace(strings.TrimPrefix(head, "mapstore "))
+			}
 			if first == "at" && strings.HasPrefix(body, "ghost ") {
 				// at call X#k: ghost name[i][j] = e
 				g := strings.TrimSpace(strings.TrimPrefix(body, "ghost"))
@@ -430,7 +434,12 @@ func (db *ContractDB) parseLines(p *packages.Package, file string, lines []srcLi
 				// function-level ghost: ghost name <smt sort>
 				i := strings.IndexAny(rest, " \t")
 				if i > 0 {
-					curFunc.Ghosts = append(curFunc.Ghosts, &GhostDecl{Name: rest[:i], Sort: strings.TrimSpace(rest[i:])})
+					g := &GhostDecl{Name: rest[:i], Sort: strings.TrimSpace(rest[i:])}
+					if j := strings.Index(g.Sort, " = "); j >= 0 {
+						g.Init = strings.TrimSpace(g.Sort[j+3:])
+						g.Sort = strings.TrimSpace(g.Sort[:j])
+					}
+					curFunc.Ghosts = append(curFunc.Ghosts, g)
 				}
 				continue
 			}
